@@ -64,6 +64,7 @@ def jobs():
                  enforce=[("znx_zero_i64_ref", "znx_zero__c")], functions=["znx_zero_i64_ref"],
                  replay={"driver": "znx_elem", "fn": "znx_zero_i64_ref", "op": "zero"}))
     J += normalize_jobs()
+    J += lemma_jobs()
     return J
 
 
@@ -90,25 +91,22 @@ def normalize_jobs():
     A_o = "i, __CPROVER_object_upto(out, nn * 8)"
     A_c = "i, __CPROVER_object_upto(carry_out, nn * 8)"
     dec = "nn - i"
+    def DIG(x):
+        return "((((%s) + %s) & (%s - 1)) - %s)" % (x, P2(k + " - 1"), P2(k), P2(k + " - 1"))
+
+    def CAR(x):
+        return "(((%s) - %s) >> %s)" % (x, DIG(x), k)
+    fo = lambda x: "(__int128)out[G] == %s" % DIG(x)
+    fc = lambda x: "(__int128)carry_out[G] == %s" % CAR(x)
+    # invariants carry only the functional form (it determines the outputs); the property-statement posts of the
+    # contract (equation, balancedness, carry bound) are derived from it at function exit, per concrete k
     loops = [
-        # 0: out, cin, cout
-        {"id": 0, "assigns": A_oc, "decreases": dec,
-         "invariants": inv("%s && %s == (__int128)out[G] + %s && %s" % (bal("out[G]"), x_cin, co, cbound), keep_cin)},
-        # 1: out, cin, no cout
-        {"id": 1, "assigns": A_o, "decreases": dec,
-         "invariants": inv("%s && ((%s - (__int128)out[G]) & (%s - 1)) == 0" % (bal("out[G]"), x_cin, P2(k)), keep_cin)},
-        # 2: out, no cin, cout
-        {"id": 2, "assigns": A_oc, "decreases": dec,
-         "invariants": inv("%s && %s == (__int128)out[G] + %s && %s" % (bal("out[G]"), x_nocin, co, cbound), keep_in)},
-        # 3: out only
-        {"id": 3, "assigns": A_o, "decreases": dec,
-         "invariants": inv("%s && ((%s - (__int128)out[G]) & (%s - 1)) == 0" % (bal("out[G]"), x_nocin, P2(k)), keep_in)},
-        # 4: no out, cin, cout
-        {"id": 4, "assigns": A_c, "decreases": dec,
-         "invariants": inv("%s && %s" % (bal("%s - %s" % (x_cin, co)), cbound), keep_cin)},
-        # 5: no out, no cin, cout
-        {"id": 5, "assigns": A_c, "decreases": dec,
-         "invariants": inv("%s && %s" % (bal("%s - %s" % (x_nocin, co)), cbound), keep_in)},
+        {"id": 0, "assigns": A_oc, "decreases": dec, "invariants": inv("%s && %s" % (fo(x_cin), fc(x_cin)), keep_cin)},
+        {"id": 1, "assigns": A_o, "decreases": dec, "invariants": inv(fo(x_cin), keep_cin)},
+        {"id": 2, "assigns": A_oc, "decreases": dec, "invariants": inv("%s && %s" % (fo(x_nocin), fc(x_nocin)), keep_in)},
+        {"id": 3, "assigns": A_o, "decreases": dec, "invariants": inv(fo(x_nocin), keep_in)},
+        {"id": 4, "assigns": A_c, "decreases": dec, "invariants": inv(fc(x_cin), keep_cin)},
+        {"id": 5, "assigns": A_c, "decreases": dec, "invariants": inv(fc(x_nocin), keep_in)},
     ]
     shapes = [("o1c1i1", 1, 1, 1), ("o1c0i1", 1, 0, 1), ("o1c1i0", 1, 1, 0), ("o1c0i0", 1, 0, 0),
               ("o0c1i1", 0, 1, 1), ("o0c1i0", 0, 1, 0)]
@@ -126,4 +124,17 @@ def normalize_jobs():
                          functions=["znx_normalize", "get_base_k_digit", "get_base_k_carry"], timeout=300,
                          bound_note="one run per NULL-pattern (6, covering the precondition) and per k in 1..62 (all of k's domain)",
                          replay={"driver": "znx_normalize"}))
+    return J
+
+
+def lemma_jobs():
+    J = []
+    for as_ in (1, 2, 3, 4):
+        for kk in range(1, 63):
+            J.append(Job(name="lemma.norm_closed_form.as%d.k%02d" % (as_, kk), props=["C05"], shape="S6",
+                         sources=[], harness="lemmas_norm.c", entry="lemma_norm", no_dfcc=True,
+                         defines={"AS": as_, "NRM_K": kk}, cbmc_flags=["--unwind", "6", "--unwinding-assertions",
+                                                                        "--no-signed-overflow-check", "--no-undefined-shift-check"],
+                         functions=[], timeout=600, solver="race", tier="quick" if as_ <= 3 else "thorough",
+                         bound_note="limb count %d, k=%d (all k and AS<=4 enumerated), all data" % (as_, kk)))
     return J
